@@ -1295,6 +1295,35 @@ func ruleLitCopy(c *Ctx) {
 				if !bad {
 					c.ok(key, cl.Pos(), "%d same-named field copies", same)
 				}
+				// … and a field-wise copy is complete: a field of the literal's type that the literal leaves out although
+				// the source has a field of that name and type is lost in the conversion (the two forms of one object
+				// then differ in content and in hash-tree-root)
+				if lt, ok := info.TypeOf(cl).Underlying().(*types.Struct); ok && same >= 3 {
+					set := map[string]bool{}
+					for _, el := range cl.Elts {
+						if kv, ok := el.(*ast.KeyValueExpr); ok {
+							if k, ok := kv.Key.(*ast.Ident); ok {
+								set[k.Name] = true
+							}
+						}
+					}
+					var lost []string
+					for i := 0; i < lt.NumFields(); i++ {
+						f := lt.Field(i)
+						if set[f.Name()] || !f.Exported() {
+							continue
+						}
+						obj, _, _ := types.LookupFieldOrMethod(srcType[o], true, pk.Types, f.Name())
+						if v, ok := obj.(*types.Var); ok && types.Identical(v.Type(), f.Type()) {
+							lost = append(lost, f.Name())
+						}
+					}
+					if len(lost) > 0 {
+						c.bad(key+".complete", cl.Pos(), "the literal copies %d fields of %s but leaves out %s, which %s has under the same name and type: the converted value loses it", same, o.Name(), strings.Join(lost, ", "), o.Name())
+					} else {
+						c.ok(key+".complete", cl.Pos(), "no same-named field of the source is left out")
+					}
+				}
 			}
 			return true
 		})
